@@ -71,7 +71,10 @@ def run_cases(binary, cases, env=None, timeout=1800, chunk=None, jobs=None):
                 rounds += 1
                 rp = os.path.join(tmpdir, "res%d_%d.txt" % (wi, rounds))
                 text = "\n".join(l for _, l in todo) + "\n"
-                rc, so, se = common.run_probe(binary, [rp], stdin_text=text, env=env, timeout=timeout)
+                # the probe runs in its own scratch directory: options that write files (paraview) write them there
+                wd = os.path.join(tmpdir, "wd%d" % wi)
+                os.makedirs(wd, exist_ok=True)
+                rc, so, se = common.run_probe(binary, [rp], stdin_text=text, env=env, timeout=timeout, cwd=wd)
                 res, begun = parse_res(rp)
                 if os.path.exists(rp):
                     os.unlink(rp)
